@@ -169,7 +169,8 @@ pub fn judge(rep: &mut Report, solver: Solver, cfg: &Cfg, rhs: &dyn Rhs<f64>, li
                     );
                     return None;
                 }
-                let ratio = (er - fl / h).max(0.0) / tol;
+                let est_floor = rhs.estimate_floor(t.abs().max(tp.abs()), norm2(y)).unwrap_or(fl / h);
+                let ratio = (er - est_floor).max(0.0) / tol;
                 rep.max(&format!("{}/estimate_over_tol", sname), ratio);
                 if !(ratio <= 1.0 + 1e-6) {
                     rep.violation(
@@ -640,6 +641,29 @@ pub fn stages(ctx: &Ctx) -> Vec<Stage> {
         let mode = if rng.bool() { DimMode::Static } else { DimMode::Dynamic };
         run_complex_case(rep, solver, &prob, &cfg, mode);
     }));
+    // a state far larger than tolerance / machine epsilon: the embedded Runge-Kutta estimate is formed from
+    // derivative values alone, so the tolerance test keeps its meaning however large the state is (the
+    // right-hand side here depends on the state only through the bounded quotient term, so that the
+    // rounding of the huge state does not reach the derivative values)
+    let nof = ctx.tier.pick(6_000, 120_000);
+    st.push(Stage::new("large-state-tight-tolerance", nof, move |i, rep| {
+        let mut rng = Rng::for_case(seed, "c03-offset", i);
+        let solver = if i % 2 == 0 { Solver::RK45 } else { Solver::RK23 };
+        let n = 1 + rng.below(3);
+        let mut prob = GenericProblem::gen(&mut rng, n);
+        for b in prob.b.iter_mut() {
+            *b = 0.0;
+        }
+        let mut cfg = gen_cfg(&mut rng, solver, prob.lip, (-10.0, -6.0), (0.3, 1.7));
+        cfg.dt_max *= rng.r(1.5, 4.0);
+        cfg.t1 = cfg.t0 + cfg.dt_max * rng.log10(0.3, 1.7);
+        let size = cfg.tol / EPS * rng.log10(1.0, 3.0);
+        let dir: Vec<f64> = (0..n).map(|_| rng.r(0.3, 1.0) * rng.sign()).collect();
+        let dn = dir.iter().map(|v| v * v).sum::<f64>().sqrt();
+        prob.y0 = dir.iter().map(|v| v / dn * size).collect();
+        rep.count(&format!("{}/large_state_cases", solver.name()), 1);
+        run_case(rep, solver, &prob, &cfg, if rng.bool() { DimMode::Static } else { DimMode::Dynamic });
+    }));
     let nsw = ctx.tier.pick(3_500, 70_000);
     st.push(Stage::new("switch-on", nsw, move |i, rep| {
         let mut rng = if i < 70 { Rng::for_case(5150, "c03-switch-anchor", i) } else { Rng::for_case(seed, "c03-switch", i) };
@@ -667,6 +691,9 @@ pub fn thresholds(ctx: &Ctx, rep: &Report) -> Vec<Threshold> {
     }
     for s in [Solver::RK45, Solver::RK23] {
         t.push(Threshold { what: format!("{}: tolerances located where the first trial's estimate equals the tolerance exactly", s.name()), required: ctx.tier.pick(60.0, 1_200.0), observed: rep.counter(&format!("{}/estimate_equals_tolerance_cases", s.name())) as f64 });
+    }
+    for s in [Solver::RK45, Solver::RK23] {
+        t.push(Threshold { what: format!("{}: solves with a state above 10 x tolerance / machine epsilon", s.name()), required: ctx.tier.pick(2_000.0, 40_000.0), observed: rep.counter(&format!("{}/large_state_cases", s.name())) as f64 });
     }
     for s in Solver::ALL {
         t.push(Threshold { what: format!("{}: late-spike solves (rough right-hand side inside the clipped final step)", s.name()), required: ctx.tier.pick(300.0, 6_000.0), observed: rep.counter(&format!("{}/late_spike_solves", s.name())) as f64 });
